@@ -478,6 +478,12 @@ Example missing_input_instance :
   o_executes o = false /\ o_value o = VPropagatedFailureCommand /\ o_failures o = 1.
 Proof. vm_compute. repeat split; reflexivity. Qed.
 
+Example sticky_instance :
+  cs_skip (provide_all false [VExistingInput; VFailedInput]) = true /\
+  cs_skip (provide_all false ([VExistingInput; VFailedInput] ++ [VExistingInput; VVirtualInput; VSkippedCommand])) = true /\
+  cs_skip (provide_all true [VExistingInput; VMissingInput; VMissingOutput]) = false.
+Proof. vm_compute. repeat split; reflexivity. Qed.
+
 Example never_valid_instance :
   cmd_valid TExternal false VSuccessfulCommand true = true /\ cmd_valid TExternal false VFailedCommand true = false /\
   node_valid RProduced VExistingInput false true = true /\ node_valid RProduced VFailedInput false true = false.
